@@ -1253,3 +1253,166 @@ class v1_node_cancel(Contract):
         a = z3.Int('a!v1q')
         return {'every_pending_future_cancelled_finished_ones_keep_their_outcome': z3.ForAll([a], z3.Implies(_rng(a, n), z3.And(
             z3.Select(w.done, a), z3.Select(w.outcome, a) == z3.If(z3.Select(w0.done, a), z3.Select(w0.outcome, a), z3.IntVal(CANCELLED)))))}
+
+
+# ============================================================================= legacy front-end: ndn/app.py table handlers
+from ndn import app as app1                                           # noqa: E402
+from contracts.assumed_aio import UserCoroutineFn                     # noqa: E402
+
+
+def mk_app1(cx, pit, face=None, data_validator=None):
+    return SymObj(app1.NDNApp, dict(logger=logging.getLogger('ndn.app'), face=face or Face(cx.run, True), _int_tree=pit,
+                                    _prefix_tree=None, data_validator=data_validator,
+                                    int_validator=UserCoroutineFn('interest_validator', [True]), _autoreg_routes=[]))
+
+
+@contract
+class v1_on_nack(on_nack):
+    fn = app1.NDNApp._on_nack
+    doc = 'legacy front-end (ndn.app.NDNApp._on_nack): same contract as the current front-end'
+
+    def setup(self, cx):
+        run = cx.run
+        pk = run.choose([('no pending node', True), ('pending node', True)], 'pit')
+        node = NodeModel(run, 'node') if pk == 'pending node' else None
+        pit = PitModel(run, node)
+        run.ghost['on_nack'] = dict(pit=pit, node=node)
+        return dict(self=mk_app1(cx, pit), name=PName(run, 'name'), nack_reason=run.input_int('nack_reason'))
+
+
+@contract
+class v1_remove_pending(remove_pending):
+    fn = app1.NDNApp._remove_pending
+    doc = 'legacy front-end (ndn.app.NDNApp._remove_pending): same contract as the current front-end'
+
+    def setup(self, cx):
+        run = cx.run
+        node = NodeModel(run, 'node')
+        tk = run.choose([('table holds this node', True), ('table holds another node', True), ('table holds nothing', True)], 'table')
+        present = node if tk == 'table holds this node' else (NodeModel(run, 'other') if tk == 'table holds another node' else None)
+        pit = PitModel(run, present)
+        run.ghost['rp'] = dict(pit=pit, node=node, tk=tk)
+        return dict(self=mk_app1(cx, pit), future=FutArg(), node_name=Opaque('token', 'node name'), node=node)
+
+
+@contract
+class v1_on_data(on_data):
+    fn = app1.NDNApp._on_data
+    doc = 'legacy front-end (ndn.app.NDNApp._on_data): same contract as the current front-end'
+
+    def setup(self, cx):
+        run = cx.run
+        run.assume(NPFX >= 0)
+        dw = DWorld(run)
+        pit = DataPit(dw)
+        name = Opaque('data_name', 'data name')
+        data = (name, Opaque('token', 'meta'), Opaque('token', 'content'), Opaque('token', 'sig'), Opaque('token', 'raw'))
+        run.ghost['od'] = dict(dw=dw, pit=pit, data=data)
+        return dict(self=mk_app1(cx, pit), name=name, meta_info=data[1], content=data[2], sig=data[3], raw_packet=data[4])
+
+
+def _wait_for_model_v1(base):
+    def model(it, args, kwargs, node):
+        if 'wfd1' not in it.run.ghost:
+            return base(it, args, kwargs, node)
+        fut = args[0]
+        timeout = kwargs.get('timeout', args[1] if len(args) > 1 else None)
+
+        def thunk():
+            g = it.run.ghost.setdefault('wait_for', [])
+            tag = it.run.choose([('result', True), (TimeoutError, True), (asyncio.CancelledError, True), (types.InterestNack, True)], 'wait_for')
+            g.append((fut, timeout, tag))
+            if tag == 'result':
+                return it.run.ghost['wfd1']['data']
+            raise PyExc(tag, ('from wait_for',), getattr(node, 'lineno', None), it.where())
+        return CoroVal(thunk, 'wait_for')
+    return model
+
+
+def _install4():
+    from pyvc import models
+    m = _wait_for_model_v1(_wait_for_model)
+    models.REAL_FUNCTION_MODELS[asyncio.wait_for] = m
+    models.BUILTIN_MODELS[asyncio.wait_for] = m
+
+
+_install4()
+V1_ANSWERS = [True, False, None, 1, 0]
+
+
+@contract
+class v1_wait_for_data(Contract):
+    fn = app1.NDNApp._wait_for_data
+    props = ('C03', 'C05')
+    doc = ('legacy _wait_for_data: waits on the Interest\'s own future for its lifetime (100 ms without one); a timeout becomes '
+           'InterestTimeout and a cancellation InterestCanceled after the Interest was removed from the table; a Nack passes through; '
+           'Data is handed to the caller ONLY after the validator - the one given, else the application\'s data_validator - accepted '
+           'exactly this Data\'s name and signature; every falsy answer is a ValidationFailure carrying the packet; the raw packet is '
+           'included iff asked for')
+    raises = {types.InterestTimeout: lambda cx, **p: True, types.InterestCanceled: lambda cx, **p: True,
+              types.InterestNack: lambda cx, **p: True, types.ValidationFailure: lambda cx, **p: True}
+
+    def setup(self, cx):
+        run = cx.run
+        node = NodeModel(run, 'node')
+        pit = PitModel(run, node)
+        fut = Fut(run, 'future')
+        dv = UserCoroutineFn('default_validator', V1_ANSWERS)
+        vk = run.choose([('validator given', True), ('validator=None', True)], 'validator')
+        v = UserCoroutineFn('validator', V1_ANSWERS) if vk == 'validator given' else None
+        lk = run.choose([('lifetime', True), ('lifetime=None', True)], 'lifetime')
+        lifetime = run.input_int('lifetime') if lk == 'lifetime' else None
+        data = tuple(Opaque('token', x) for x in ('data name', 'meta', 'content', 'sig', 'raw packet'))
+        app_ = mk_app1(cx, pit, data_validator=dv)
+        run.ghost['wfd1'] = dict(pit=pit, node=node, fut=fut, dv=dv, v=v, data=data, app=app_)
+        return dict(self=app_, future=fut, lifetime=lifetime, node_name=Opaque('token', 'node name'),
+                    node=node, validator=v, need_raw_packet=run.choose([(False, True), (True, True)], 'need_raw_packet'))
+
+    def _common(c, cx, future, lifetime):
+        from pyvc.values import Quot
+        w = cx.run.ghost.get('wait_for', [])
+        out = {'waits_once_on_its_own_future': len(w) == 1 and w[0][0] is future}
+        if len(w) == 1:
+            t = w[0][1]
+            if lifetime is None:
+                out['waits_100ms_without_lifetime'] = isinstance(t, float) and t == 0.1
+            else:
+                out['waits_for_the_lifetime'] = isinstance(t, Quot) and t.den == 1000.0 and Eq(zint(t.num), zint(lifetime))
+        return out, w
+
+    def _validated(c, cx):
+        g = cx.run.ghost['wfd1']
+        used = g['v'] if g['v'] is not None else g['dv']
+        others = [x for x in (g['dv'], g['v'], g['app'].d['int_validator']) if x is not None and x is not used]
+        ok = len(used.calls) == 1 and used.calls[0][0] == (g['data'][0], g['data'][3]) and all(o.calls == [] for o in others)
+        ans = cx.run.ghost.get(f'{used.label}.returned', 'not asked')
+        return ok, ans
+
+    def post(c, cx, result, self, future, lifetime, node_name, node, validator, need_raw_packet):
+        g = cx.run.ghost['wfd1']
+        out, w = c._common(cx, future, lifetime)
+        ok, ans = c._validated(cx)
+        d = g['data']
+        out['data_returned_only_after_the_right_validator_accepted_it'] = ok and (ans is True or ans == 1 and ans is not False)
+        want = (d[0], d[1], d[2], d[4]) if need_raw_packet else (d[0], d[1], d[2])
+        out['returns_name_meta_content_and_raw_packet_iff_asked'] = isinstance(result, tuple) and len(result) == len(want) and \
+            all(x is y for x, y in zip(result, want))
+        out['table_untouched_on_success'] = node.calls == []
+        return out
+
+    def xpost(c, cx, exc, self, future, lifetime, node_name, node, validator, need_raw_packet):
+        out, w = c._common(cx, future, lifetime)
+        if len(w) != 1:
+            return out
+        tag = w[0][2]
+        removed = [x[0] for x in node.calls] == ['timeout'] and node.calls[0][1] == (future,)
+        if exc.cls is types.InterestTimeout:
+            out['timeout_reported_after_removal'] = tag is TimeoutError and removed
+        elif exc.cls is types.InterestCanceled:
+            out['cancellation_reported_after_removal'] = tag is asyncio.CancelledError and removed
+        elif exc.cls is types.InterestNack:
+            out['nack_passes_through'] = tag is types.InterestNack and node.calls == []
+        else:
+            ok, ans = c._validated(cx)
+            out['validation_failure_only_after_the_validator_refused'] = tag == 'result' and ok and not (ans is True or ans == 1 and ans is not False)
+        return out
